@@ -108,6 +108,7 @@ def short_transfer_loop(f, bi, loops=None):
     mine = [h for h, body in loops.items() if bi in body]
     br = branch_of_call(f, bi)
     zero_exit = advance = False
+    zero_succs = []
     if br and mine:
         body = loops[min(mine, key=lambda h: len(loops[h]))]
         R = Resolver(f)
@@ -136,6 +137,7 @@ def short_transfer_loop(f, bi, loops=None):
                 zero_succ = e.get("0")
             if zero_succ is not None and zero_succ not in body:
                 zero_exit = True
+                zero_succs.append(zero_succ)
         for sb in body:
             for st in f.blocks[sb]["stmts"]:
                 rv = st["rv"]
@@ -144,7 +146,7 @@ def short_transfer_loop(f, bi, loops=None):
             tt = f.blocks[sb]["term"]
             if tt["k"] == "call" and (callee_of(tt).endswith("::split_at_mut") or callee_of(tt).endswith("::split_at")) and len(tt["args"]) == 2 and is_count(R.operand(tt["args"][1])):
                 advance = True
-    return {"in_loop": bool(mine), "propagated": br is not None, "zero_exit": zero_exit, "advance": advance}
+    return {"in_loop": bool(mine), "propagated": br is not None, "zero_exit": zero_exit, "advance": advance, "zero_succs": zero_succs}
 
 
 def raw_transfer_discipline(ctx, prog, rule, floors=True):
